@@ -96,7 +96,7 @@ def workload(tier, seed, scale=1.0):
                     for o in seq:
                         ops += [o, 'l', 'h']
                     # terminal observation: alternate last / count, plus fused behaviour (extra next after None)
-                    terms = ('L', 'c', 'F', 'R', 'C', 'V', 'S', 'E')
+                    terms = ('L', 'c', 'F', 'R', 'C', 'V', 'S', 'E', 'M', 'm', 'A', 'P', 'p', 'Y', 'Q', 'Z')
                     term = terms[(len(seq) + sum(map(len, seq)) + 3 * sum(map(ord, ''.join(seq)))) % len(terms)]
                     full = ['l', 'h'] + ops + [term]
                     kind = 'U' if (d + width) % 3 else 'I'
@@ -109,7 +109,7 @@ def workload(tier, seed, scale=1.0):
         for width in (32, 64):
             for _ in range(200 if quick else 3000):
                 seq = [rnd.choice(('n', 'b', 'n', 'b', 't0', 't1', 't3', 'k0', 'k2', 'l', 'h')) for _ in range(rnd.randrange(1, 24))]
-                cmds.append(cmd_iter(width, v, 'U', seq + [rnd.choice(('L', 'c', 'F', 'R', 'C', 'V', 'S', 'E'))], cell=('iter-rand', width, len(seq))))
+                cmds.append(cmd_iter(width, v, 'U', seq + [rnd.choice(('L', 'c', 'F', 'R', 'C', 'V', 'S', 'E', 'M', 'm', 'A', 'P', 'p', 'Y', 'Q', 'Z'))], cell=('iter-rand', width, len(seq))))
     return cmds
 
 
